@@ -321,6 +321,12 @@ fn sc_create_pool_classes(t: &mut Tracer, cfg: SysCfg, name: &str) {
     w.create_pool(&b, &["uusdc", "uusdt"], &[6, 6], f0.clone(), CP, Some("oldfee"), &ok);
     w.update_config(&o, None, Some(coin(0, "uusd")), &[], "creation fee -> 0");
     let ok3 = w.creation_funds();
+    let mut extra0 = ok3.clone();
+    extra0.push(coin(500, "uweth"));
+    w.create_pool(&b, &["uusdc", "uusdt"], &[6, 6], f0.clone(), CP, Some("zerofeeextra"), &sorted(extra0));
+    let mut extra1 = ok3.clone();
+    extra1.push(coin(1, "uusd"));
+    w.create_pool(&b, &["uusdc", "uusdt"], &[6, 6], f0.clone(), CP, Some("zerofeeextra2"), &sorted(extra1));
     w.create_pool(&b, &["uusdc", "uusdt"], &[6, 6], f0.clone(), CP, Some("zerofee"), &ok3);
 }
 
@@ -443,7 +449,9 @@ fn sc_liquidity(t: &mut Tracer, ss_decs: [u8; 2], name: &str) {
     }
     w.provide(&a, "o.cp1", &[coin(2_000_001, "uusdc")], None, Some(DAY), None, None, half);
     w.provide(&a, "o.cp1", &[coin(2_000_000, "uusdc")], None, Some(DAY), Some("mine"), None, half);
-    w.provide(&a, "o.cp1", &[coin(2_000_000, "uusdc")], None, Some(DAY), Some("mine"), None, half); // expands u-mine
+    w.provide(&a, "o.cp1", &[coin(2_000_000, "uusdc")], None, Some(DAY), Some("mine"), None, half); // "mine" again: u-mine exists, refused
+    w.provide(&a, "o.cp1", &[coin(2_000_000, "uusdc")], None, Some(DAY), Some("u-mine"), None, half); // expands u-mine through the pool manager
+    w.provide(&a, "o.cp1", &sorted(vec![coin(5_000 * d(6), "uusdc"), coin(7_000 * d(6), "uusdt")]), None, Some(DAY), Some("u-mine"), None, None); // two-asset expansion
     w.provide(&c, "o.cp1", &[coin(2_000_000, "uusdc")], None, Some(DAY), Some("u-mine"), None, half); // someone else's position: refused
     w.provide(&c, "o.cp1", &[coin(2_000_000, "uusdc")], Some(&a), Some(DAY), None, None, half); // lock for someone else: refused
     w.provide(&c, "o.cp1", &sorted(vec![coin(5_000 * d(6), "uusdc"), coin(7_000 * d(6), "uusdt")]), Some(&a), Some(DAY), None, None, None); // two-asset lock for someone else: refused
@@ -755,7 +763,7 @@ fn random_history(rng: &mut StdRng, t: &mut Tracer, steps: usize, idx: usize) {
             35..=46 => {
                 let f: Vec<Coin> = (0..n).map(|i| coin(res[i] / rng.gen_range(10..100_000) + 1, names[i].clone())).collect();
                 let tol = if rng.gen_bool(0.2) { Some(Decimal::percent(rng.gen_range(0..30))) } else { None };
-                let (lock, lid) = if rng.gen_bool(0.2) { (Some(DAY * rng.gen_range(1..300)), if rng.gen_bool(0.5) { Some("lk") } else { None }) } else { (None, None) };
+                let (lock, lid) = if rng.gen_bool(0.2) { (Some(DAY * rng.gen_range(1..300)), match rng.gen_range(0..3) { 0 => Some("lk"), 1 => Some("u-lk"), _ => None }) } else { (None, None) };
                 w.provide(&who, pool, &sorted(f), None, lock, lid, tol, None);
             }
             47..=52 => {
